@@ -407,6 +407,19 @@ class Orchestrator:
             m = re.match(r'^\[(\w+)\] ', e)
             if m is None or m.group(1) == 'ALL' or m.group(1) in engines:
                 errors.append(e)
+        have = (res['engines'].get('SRC') or {}).get('rules') or {}
+        flagged_rules = {f['rule'] for f in viol}
+        for r in P.REQUIRE.get(prop, []):
+            if not have.get(r) and not any(fr == r or fr.startswith(r) for fr in flagged_rules):
+                errors.append('[%s] rule %s examined nothing on this tree (analyser not run or anchor lost)' % (prop, r))
+        gstats = (res['engines'].get('GEN') or {}).get('stats') or {}
+        for k in P.REQUIRE_STATS.get(prop, []):
+            if not gstats.get(k):
+                errors.append('[%s] the generated-code analysis counted no `%s` on this tree (analyser not run, or nothing of that kind was generated)' % (prop, k))
+        if prop in P.REQUIRE_WITNESSES:
+            nw = ((res['engines'].get('WIT') or {}).get(prop) or {}).get('count', 0)
+            if nw < P.REQUIRE_WITNESSES[prop]:
+                errors.append('[%s] only %d witnesses were examined (floor %d)' % (prop, nw, P.REQUIRE_WITNESSES[prop]))
         vdir = os.path.join(self.here, 'evidence', 'violations')
         code = 0
         # dedupe violations by key
